@@ -130,6 +130,9 @@ def run(tier):
             exp = (t["tline"], t["tcol"] + 1, t["tcol"] + t["n"])
             jobs.append({"id": "LX%d_%d" % (n, tokno), "entry": "xml_buffer", "text": x, "structure": False})
             jobs.append({"id": "LP%d_%d" % (n, tokno), "entry": "part", "part": "S_GUARD", "text": text + " > 0", "scaffold": decl, "builtins": False, "structure": False})
+            if "\n" not in text and "\r" not in text:
+                # the same text inside a query (plain-text input, query syntax of the scanner): `E<> ` in front moves the columns by four
+                jobs.append({"id": "LQ%d_%d" % (n, tokno), "entry": "xta", "text": decl + " process T(){ state A; init A; } system T;", "queries": ["E<> " + text + " > 0"], "query_builder": "property", "structure": False})
             lmeta.append((n, tokno, text, exp))
     # ---- B. fault universe over DocGen models
     models = docgen.generate(c, ["labels", "mixed"], 800 if quick else 6000, c.seed, bfs=False)
@@ -196,6 +199,20 @@ def run(tier):
                 for e in errs:
                     if e["path"] != "/nta/template[1]/transition[1]/label[1]":
                         c.finding("c06:layout-path", "the diagnostic of a faulted guard carries the path `%s`" % e["path"], rep)
+    nq = 0
+    for (n, tokno, text, exp) in lmeta:
+        r = res.get("LQ%d_%d" % (n, tokno))
+        if r is None or not r.get("queries") or r["queries"][0].get("outcome") != "return":
+            continue
+        nq += 1
+        errs = r["queries"][0]["errors"]
+        got = [(e["sl"], e["sc"], e["ec"]) for e in errs]
+        want = (exp[0], exp[1] + 4, exp[2] + 4)
+        if want not in got or any(e["path"] for e in errs):
+            c.finding("c06:layout-query:%s" % "-".join(sorted({it["k"] for it in layouts[n]["items"]})),
+                      "the undeclared identifier at line %d columns %d..%d of the query `E<> %s > 0` is reported at %s (paths %s)" % (want[0], want[1], want[2], text, got, sorted({e["path"] for e in errs})),
+                      {"layout": layouts[n]["items"], "token": tokno, "query": "E<> " + text + " > 0", "expected": want, "got": [(e["msg"], e["path"], e["sl"], e["sc"], e["el"], e["ec"]) for e in errs]})
+    c.cov["layout_cases_as_queries"] = nq
     # ---- decide B
     nf = ndiag = 0
     by_class = {}
